@@ -56,7 +56,7 @@ def ob_construct_round(budget_s=60):
 
     def run():
         which = symx.choose("which", 4)
-        grid = symx.choose("grid", 2)
+        grid = 1 - symx.choose("gridfirst", 2)   # the replayable grid variant is explored first
         if grid:
             # x on a grid whose points are exactly representable (dyadic for float, 6 decimal places otherwise), so that a
             # counterexample can be replayed on the real types; grid == 0 is the general real x
@@ -319,7 +319,7 @@ def replay(data):
         return (Fraction(b) != exp or type(b) is not Beat), f"constructor variant {w} with n={n}, d={d}: {b!r} (type {type(b).__name__}), expected {exp}"
     if func == "ob_construct_round":
         w = int(g("which"))
-        x = g("mx") / (2**20 if w == 0 else 10**6) if int(g("grid")) else g("x")
+        x = g("mx") / (2**20 if w == 0 else 10**6) if not int(g("gridfirst")) else g("x")
         dx = Decimal(x.numerator) / Decimal(x.denominator)
         if Fraction(dx) != x:
             return False, "model value is not a finite decimal"
